@@ -105,7 +105,7 @@ Qed.
 
 Lemma req_store_cases mid h c : req_store mid h c = c \/ exists r, req_store mid h c = cache_store c mid r.
 Proof.
-  unfold req_store. destruct (hd_store h); [|left; reflexivity].
+  unfold req_store, store_reply. destruct (hd_store h); [|left; reflexivity].
   destruct (hd_reply h) as [r|]; [right; exists r; reflexivity|left; reflexivity].
 Qed.
 
@@ -121,7 +121,7 @@ Qed.
 Lemma req_store_noncacheable typ mid tok ro b own1 c :
   is_cacheable_typ typ = false -> req_store mid (req_handle typ mid tok ro b own1) c = c.
 Proof.
-  intros Ct. unfold req_store.
+  intros Ct. unfold req_store, store_reply.
   destruct (hd_store (req_handle typ mid tok ro b own1)) eqn:E; [|reflexivity].
   apply handle_store_cacheable in E. congruence.
 Qed.
@@ -199,7 +199,7 @@ Proof.
     { destruct Hc as [Hc|Hc]; [left; exact Hc|right]. intros E. apply Hc. cbn [obs_of_reply o_out]. rewrite E. reflexivity. }
     destruct (handle_stores typ mid tok ro b _ Ct Hc') as [r [Hr Hs]]. fold h in Hr, Hs.
     exists r. cbn [obs_of_reply o_out cache]. rewrite Hr. split; [reflexivity|].
-    unfold req_store. rewrite Hs, Hr. apply lookup_store_same_miss; exact Ld.
+    unfold req_store, store_reply. rewrite Hs, Hr. apply lookup_store_same_miss; exact Ld.
 Qed.
 
 (* ---------- a copy that finds a valid entry is answered from it, handler not called ---------- *)
@@ -233,6 +233,88 @@ Proof.
   specialize (L2 ltac:(lia)).
   pose proof (duplicate_hits (final s1 evs) typ2 mid tok2 code2 ro2 b2 _ L2 ltac:(cbn [e_left]; lia) Ct2) as [Hc2 [r2 [Ho2 [Hs [Hm Ht]]]]].
   cbv zeta. split; [exact Hc2|]. exists r1, r2. cbn [e_reply] in Hs. repeat split; try assumption; apply Hs.
+Qed.
+
+(* a reply was produced: for a request that is not confirmable this is what makes it cacheable *)
+Lemma replied_has_reply typ mid tok ro b own1 :
+  handler_result tok ro b <> None -> hd_reply (req_handle typ mid tok ro b own1) <> None.
+Proof.
+  unfold req_handle. destruct (handler_result tok ro b) as [h|]; [|contradiction]. intros _.
+  destruct (is_special h); destruct (typ =? CON); cbn [hd_reply]; discriminate.
+Qed.
+
+(* [dedup_once] with the cacheability condition stated on the handler: whatever the handler set -- a response, a
+   replaced message, a Reset, an Empty code -- the request is handled once *)
+Theorem dedup_once_replied : forall s typ mid tok code ro b s1 o1 evs typ2 tok2 code2 ro2 b2,
+  step s (Req typ mid tok code ro b) = (s1, o1) ->
+  is_cacheable_typ typ = true -> o_called o1 = true -> (typ = CON \/ handler_result tok ro b <> None) ->
+  ages_ok evs -> total_age evs <= LIFETIME ->
+  is_cacheable_typ typ2 = true ->
+  let o2 := snd (step (final s1 evs) (Req typ2 mid tok2 code2 ro2 b2)) in
+  o_called o2 = false /\
+  exists r1 r2, o_out o1 = [r1] /\ o_out o2 = [r2] /\ same_content r2 r1 /\ w_mid r2 = mid /\
+                w_typ r2 = (if typ2 =? CON then ACK else NON).
+Proof.
+  intros s typ mid tok code ro b s1 o1 evs typ2 tok2 code2 ro2 b2 St Ct Cal Hr Ha Hage Ct2.
+  apply (dedup_once s typ mid tok code ro b s1 o1 evs typ2 tok2 code2 ro2 b2 St Ct Cal); try assumption.
+  destruct Hr as [Hr|Hr]; [left; exact Hr|right].
+  cbn [step] in St. destruct (req_lookup typ mid (cache s)); injection St as _ <-; [cbn in Cal; discriminate|].
+  cbn [obs_of_reply o_out]. pose proof (replied_has_reply typ mid tok ro b (req_check typ mid (own s)) Hr) as Hn.
+  destruct (hd_reply _); [discriminate|contradiction].
+Qed.
+
+(* separate response: the handler of a confirmable request sets nothing; the request is acknowledged with a bare
+   ACK, which is what every copy gets for the lifetime -- whatever happens in between, in particular the
+   application sending the response itself ([Send]) *)
+Theorem separate_response : forall s mid tok code ro b s1 o1 evs tok2 code2 ro2 b2,
+  step s (Req CON mid tok code ro b) = (s1, o1) -> o_called o1 = true -> handler_result tok ro b = None ->
+  ages_ok evs -> total_age evs <= LIFETIME ->
+  let o2 := snd (step (final s1 evs) (Req CON mid tok2 code2 ro2 b2)) in
+  o_out o1 = [bare_ack mid] /\ o_called o2 = false /\ o_out o2 = [bare_ack mid].
+Proof.
+  intros s mid tok code ro b s1 o1 evs tok2 code2 ro2 b2 St Cal Hn Ha Hage.
+  assert (Ho1 : o_out o1 = [bare_ack mid]).
+  { cbn [step] in St. destruct (req_lookup CON mid (cache s)); injection St as _ <-; [cbn in Cal; discriminate|].
+    unfold req_handle. rewrite Hn. reflexivity. }
+  pose proof (dedup_once s CON mid tok code ro b s1 o1 evs CON tok2 code2 ro2 b2 St eq_refl Cal (or_introl eq_refl) Ha Hage eq_refl)
+    as [Hc2 [r1 [r2 [E1 [E2 [[Sc [Stk [So Sp]]] [Hm Ht]]]]]]].
+  cbv zeta. split; [exact Ho1|]. split; [exact Hc2|]. rewrite E2. rewrite Ho1 in E1. injection E1 as <-.
+  destruct r2 as [t c i k o p]. cbn in *. subst. reflexivity.
+Qed.
+
+(* what the application sends on its own never touches the response cache or the handler *)
+Theorem send_is_emission : forall s typ tok code opts pay,
+  cache (fst (step s (Send typ tok code opts pay))) = cache s /\
+  o_called (snd (step s (Send typ tok code opts pay))) = false /\
+  exists r, o_out (snd (step s (Send typ tok code opts pay))) = [r] /\
+            w_typ r = typ /\ w_code r = code /\ w_tok r = tok /\ w_opts r = opts /\ w_pay r = pay.
+Proof. intros. cbn. split; [reflexivity|]. split; [reflexivity|]. eexists. repeat split. Qed.
+
+(* a message withheld by the request monitor: no handler, nothing on the wire, nothing cached -- the next copy is
+   treated exactly as if the withheld one had not arrived *)
+Theorem drop_unseen : forall s typ mid,
+  cache (fst (step s (Drop typ mid))) = cache s /\ snd (step s (Drop typ mid)) = {| o_called := false; o_out := [] |}.
+Proof. intros. cbn. split; reflexivity. Qed.
+
+(* a ping is answered with a Reset carrying its message ID; the handler never sees it and nothing is cached *)
+Theorem ping_unseen : forall s mid,
+  cache (fst (step s (Ping mid))) = cache s /\ o_called (snd (step s (Ping mid))) = false /\
+  o_out (snd (step s (Ping mid))) = [{| w_typ := RST; w_code := 0; w_mid := mid; w_tok := []; w_opts := []; w_pay := [] |}].
+Proof. intros. cbn. repeat split. Qed.
+
+(* a handler that replaces the response message: the reply is that message (its own token, no No-Response check),
+   acknowledging a confirmable request / with an own message ID otherwise *)
+Theorem set_message_reply : forall s typ mid tok code ro rc tok' o p,
+  req_lookup typ mid (cache s) = None ->
+  let ob := snd (step s (Req typ mid tok code ro (BMsg rc tok' o p))) in
+  o_called ob = true /\
+  exists r, o_out ob = [r] /\ w_code r = rc /\ w_tok r = tok' /\ w_opts r = o /\ w_pay r = p /\
+            (typ = CON -> w_typ r = ACK /\ w_mid r = mid).
+Proof.
+  intros s typ mid tok code ro rc tok' o p Hl. cbn [step]. rewrite Hl. cbn [snd obs_of_reply o_called o_out].
+  split; [reflexivity|]. unfold req_handle. cbn [handler_result].
+  destruct (is_special _); destruct (typ =? CON) eqn:E; cbn [hd_reply]; eexists; (split; [reflexivity|]); cbn;
+    repeat split; try reflexivity; subst typ; vm_compute in E; discriminate.
 Qed.
 
 (* ---------- freshness after the lifetime ---------- *)
